@@ -12,7 +12,7 @@ REQUIRED = [P + n for n in """fill_benign drain_benign
 writer_frames writer_rejects_nothing_written writer_frame_size
 read_frame reader_any_fragmentation reader_roundtrip reader_clean_end reader_truncation reader_resync
 reader_alloc reader_oversize_rejected
-valCodec_roundtrip decVal_noPanic""".split()]
+valCodec_roundtrip valCodec_padded decVal_noPanic""".split()]
 PACKAGES = ["hio"]
 DEBUG_TWINS = True
 RULE = ("fread/fwrite scenarios on the real Reader/Writer over scripted std::io::Read/Write: value sequences whose stream is <=12 bytes "
